@@ -838,6 +838,19 @@ func mechanism(md protoreflect.MessageDescriptor, b []byte, t *gcore.Type) strin
 				continue
 			}
 			if len(es) != 2 || es[0].Num != 1 || es[1].Num != 2 {
+				// a message-typed VALUE occurring twice inside one entry is the replace-instead-of-merge mechanism (the
+				// reference merges the two occurrences); any other unusual entry shape keeps its own class
+				if vd := fd.MapValue(); vd.Message() != nil {
+					nv := 0
+					for _, e := range es {
+						if e.Num == 2 && e.WT == refwire.Len {
+							nv++
+						}
+					}
+					if nv > 1 {
+						return "message-merge"
+					}
+				}
 				return "map-entry-shape"
 			}
 			if vd := fd.MapValue(); vd.Message() != nil && es[1].WT == refwire.Len {
@@ -880,6 +893,11 @@ func (w *W) c08One(t *gcore.Type, id string, b []byte, measure bool) {
 		w.sh.Fail(fmt.Sprintf("C08/Unmarshal-panic/%s/%s.%s", t.RT, t.File, t.Name), t.String()+"/"+id, map[string]any{"bytes": hexs(b), "msg": p})
 		return
 	}
+	// whatever the verdict, decoding READS its input: the caller's buffer holds what it held before
+	if !bytes.Equal(in, b) {
+		w.sh.Fail(fmt.Sprintf("C08/input-buffer-modified-by-Unmarshal/%s/%s.%s", t.RT, t.File, t.Name), t.String()+"/"+id, map[string]any{"bytes": hexs(b), "buffer_afterwards": hexs(in), "error": fmt.Sprint(err)})
+		return
+	}
 	if err != nil {
 		return
 	}
@@ -913,6 +931,14 @@ func (w *W) checkC08(t *gcore.Type, id string, c *dynamicpb.Message) {
 	seed := canonical(c)
 	if len(seed) == 0 {
 		return
+	}
+	// every legal encoding variant of the tree as it is (fields permuted / split / given twice, unknown fields of every
+	// shape at every position and interleaved with the known ones, padded keys): arbitrary bytes for the dispatch loop,
+	// and inputs on which the reference has a definite answer
+	for _, v := range variants(t.RefDesc(), c, 1) {
+		if len(v.b) <= 4096 {
+			w.c08One(t, id+"/variant:"+v.name, v.b, false)
+		}
 	}
 	// truncation at every offset
 	for n := 0; n < len(seed); n++ {
